@@ -8,7 +8,7 @@ CFG = {
     "lean": "Aqv.Props.C07",
     "exe": "aqmodel_c07",
     "harness": "c07",
-    "gen": ["vmflags"],
+    "gen": ["vmflags", "translated"],
     "overlay": ["core/vm/c07_access.go"],
     "trivial_outputs": _TRIV,
     "timeout": {"quick": 900, "thorough": 5400},
